@@ -287,3 +287,250 @@ func checkSearchCase(c searchCase) (bool, string) {
 	}
 	return true, ""
 }
+
+// ---------------------------------------------------------------------------------------------------------------------
+// The same bounded stand-in for the Cosmos DB vault's (reader).buildSearchQuery (it was a trusted contract before): the real
+// function is run on the same 35 filter shapes; the query must be SELECT <the eight result fields> FROM c WHERE <expr>
+// ORDER BY c.submitTime DESC, <expr> over the atoms c.swarm=@swarm, ARRAY_CONTAINS(@ids, c.id),
+// ARRAY_CONTAINS(@group_ids, c.groupID), c.stateStatus = @statusN with AND / OR / parentheses (SQL precedence); every
+// parameter it names must be among the query parameters returned, @swarm bound to the reader's swarm. Its meaning is
+// compared with the statement's on a universe of 2 swarms x 3 ids x 3 groups x 4 statuses: a plan of another swarm never
+// matches.
+
+const cosmosSearchHarness = `package cosmosdb
+
+import (
+	"encoding/json"
+	"fmt"
+	"testing"
+
+	"github.com/element-of-surprise/coercion/workflow"
+	"github.com/element-of-surprise/coercion/workflow/storage"
+	"github.com/google/uuid"
+)
+
+func TestZZGovcBoundedCosmosSearchQuery(t *testing.T) {
+	ids := []uuid.UUID{uuid.MustParse("00000000-0000-7000-8000-0000000000a0"), uuid.MustParse("00000000-0000-7000-8000-0000000000a1")}
+	gids := []uuid.UUID{uuid.MustParse("00000000-0000-7000-8000-0000000000b0"), uuid.MustParse("00000000-0000-7000-8000-0000000000b1")}
+	sts := []workflow.Status{workflow.Running, workflow.Completed, workflow.Failed}
+	for ni := 0; ni <= 2; ni++ {
+		for ng := 0; ng <= 2; ng++ {
+			for ns := 0; ns <= 3; ns++ {
+				if ni+ng+ns == 0 {
+					continue
+				}
+				f := storage.Filters{ByIDs: ids[:ni], ByGroupIDs: gids[:ng], ByStatus: sts[:ns]}
+				q, params := reader{swarm: "sw0"}.buildSearchQuery(f)
+				nm := map[string][]string{}
+				for _, p := range params {
+					var vs []string
+					switch v := p.Value.(type) {
+					case []uuid.UUID:
+						for _, u := range v {
+							vs = append(vs, u.String())
+						}
+					default:
+						vs = []string{fmt.Sprint(v)}
+					}
+					if _, dup := nm[p.Name]; dup {
+						vs = []string{"<duplicate parameter>"}
+					}
+					nm[p.Name] = vs
+				}
+				var wantSt []string
+				for _, s := range sts[:ns] {
+					wantSt = append(wantSt, fmt.Sprint(int64(s)))
+				}
+				b, _ := json.Marshal(map[string]any{"ni": ni, "ng": ng, "ns": ns, "q": q, "params": nm, "statuses": wantSt})
+				fmt.Println("GOVC-BOUNDED " + string(b))
+			}
+		}
+	}
+}
+`
+
+type cosmosCase struct {
+	NI       int                 `json:"ni"`
+	NG       int                 `json:"ng"`
+	NS       int                 `json:"ns"`
+	Q        string              `json:"q"`
+	Params   map[string][]string `json:"params"`
+	Statuses []string            `json:"statuses"`
+}
+
+var (
+	cosmosSelRe = regexp.MustCompile(`(?is)^\s*select\s+c\.id\s*,\s*c\.groupID\s*,\s*c\.name\s*,\s*c\.descr\s*,\s*c\.submitTime\s*,\s*c\.stateStatus\s*,\s*c\.stateStart\s*,\s*c\.stateEnd\s+from\s+c\s+where\s+(.*?)\s+order\s+by\s+c\.submitTime\s+desc\s*;?\s*$`)
+	cosmosSwarm = regexp.MustCompile(`(?is)^c\.swarm\s*=\s*(@[a-z0-9_]+)$`)
+	cosmosArr   = regexp.MustCompile(`(?is)^array_contains\(\s*(@[a-z0-9_]+)\s*,\s*c\.(id|groupID)\s*\)$`)
+	cosmosEq    = regexp.MustCompile(`(?is)^c\.stateStatus\s*=\s*(@[a-z0-9_]+)$`)
+)
+
+func boundedCosmosSearchQuery(repo string) ([]boundedResult, error) {
+	dir, err := os.MkdirTemp("", "govc-bounded-")
+	if err != nil {
+		return nil, err
+	}
+	defer os.RemoveAll(dir)
+	tf := filepath.Join(dir, "zz_govc_bounded_test.go")
+	if err := os.WriteFile(tf, []byte(cosmosSearchHarness), 0o644); err != nil {
+		return nil, err
+	}
+	ov := filepath.Join(dir, "ov.json")
+	ovb, _ := json.Marshal(map[string]any{"Replace": map[string]string{filepath.Join(repo, "workflow/storage/cosmosdb/zz_govc_bounded_test.go"): tf}})
+	os.WriteFile(ov, ovb, 0o644)
+	cmd := exec.Command("go", "test", "-overlay", ov, "-vet=off", "-count=1", "-v", "-timeout", "180s", "-run", "TestZZGovcBoundedCosmosSearchQuery", "./workflow/storage/cosmosdb/")
+	cmd.Dir = repo
+	cmd.Env = append(os.Environ(), "GOFLAGS=-mod=mod", "GOPROXY=off")
+	out, err := cmd.CombinedOutput()
+	var cases []cosmosCase
+	for _, ln := range strings.Split(string(out), "\n") {
+		if i := strings.Index(ln, "GOVC-BOUNDED "); i >= 0 {
+			var raw cosmosCase
+			if json.Unmarshal([]byte(ln[i+len("GOVC-BOUNDED "):]), &raw) == nil {
+				cases = append(cases, raw)
+			}
+		}
+	}
+	if len(cases) == 0 {
+		return nil, fmt.Errorf("bounded cosmos-search: the harness produced no case (go test: %v)\n%s", err, firstLines(string(out), 15))
+	}
+	var res []boundedResult
+	for _, c := range cases {
+		name := fmt.Sprintf("cosmos-search[ids=%d,groups=%d,statuses=%d]", c.NI, c.NG, c.NS)
+		in, _ := json.Marshal(c)
+		ok, detail := checkCosmosCase(c)
+		res = append(res, boundedResult{Name: name, OK: ok, Detail: detail, Input: string(in)})
+	}
+	return res, nil
+}
+
+func checkCosmosCase(c cosmosCase) (bool, string) {
+	m := cosmosSelRe.FindStringSubmatch(c.Q)
+	if m == nil {
+		return false, "query is not `SELECT <the eight listed fields> FROM c WHERE ... ORDER BY c.submitTime DESC`: " + c.Q
+	}
+	var perr string
+	used := map[string]bool{}
+	param := func(p string) ([]string, bool) {
+		v, ok := c.Params[p]
+		if !ok {
+			perr = fmt.Sprintf("parameter %s is not among the query parameters: %s", p, c.Q)
+			return nil, false
+		}
+		used[p] = true
+		return v, true
+	}
+	var parseExpr func(t string) *sqlNode
+	parseAtom := func(t string) *sqlNode {
+		t = strings.TrimSpace(t)
+		if sm := cosmosSwarm.FindStringSubmatch(t); sm != nil {
+			v, ok := param(sm[1])
+			if !ok {
+				return nil
+			}
+			return &sqlNode{col: "swarm", vals: v}
+		}
+		if am := cosmosArr.FindStringSubmatch(t); am != nil {
+			v, ok := param(am[1])
+			if !ok {
+				return nil
+			}
+			col := "id"
+			if strings.EqualFold(am[2], "groupID") {
+				col = "group_id"
+			}
+			return &sqlNode{col: col, vals: v}
+		}
+		if em := cosmosEq.FindStringSubmatch(t); em != nil {
+			v, ok := param(em[1])
+			if !ok {
+				return nil
+			}
+			return &sqlNode{col: "state_status", vals: v}
+		}
+		if strings.HasPrefix(t, "(") && strings.HasSuffix(t, ")") && len(splitTop(t, orSplit)) == 1 && len(splitTop(t, andSpl)) == 1 {
+			return parseExpr(t[1 : len(t)-1])
+		}
+		perr = fmt.Sprintf("WHERE term %q is outside the subset (c.swarm=@p | ARRAY_CONTAINS(@p, c.id|c.groupID) | c.stateStatus = @p | AND | OR | parentheses): %s", t, c.Q)
+		return nil
+	}
+	parseExpr = func(t string) *sqlNode {
+		or := &sqlNode{op: "or"}
+		for _, d := range splitTop(strings.TrimSpace(t), orSplit) {
+			and := &sqlNode{op: "and"}
+			for _, a := range splitTop(strings.TrimSpace(d), andSpl) {
+				nd := parseAtom(a)
+				if nd == nil {
+					return nil
+				}
+				and.kids = append(and.kids, nd)
+			}
+			or.kids = append(or.kids, and)
+		}
+		return or
+	}
+	root := parseExpr(strings.TrimSpace(m[1]))
+	if root == nil {
+		return false, perr
+	}
+	for p, v := range c.Params {
+		if len(v) == 1 && v[0] == "<duplicate parameter>" {
+			return false, fmt.Sprintf("parameter %s is given twice: %s", p, c.Q)
+		}
+	}
+	ids := []string{"00000000-0000-7000-8000-0000000000a0", "00000000-0000-7000-8000-0000000000a1", "00000000-0000-7000-8000-0000000000af"}
+	gids := []string{"00000000-0000-7000-8000-0000000000b0", "00000000-0000-7000-8000-0000000000b1", "00000000-0000-7000-8000-0000000000bf"}
+	sts := append(append([]string{}, c.Statuses...), "-7")
+	for len(sts) < 4 {
+		sts = append(sts, fmt.Sprint(-8-len(sts)))
+	}
+	in := func(v string, set []string) bool {
+		for _, s := range set {
+			if s == v {
+				return true
+			}
+		}
+		return false
+	}
+	for _, sw := range []string{"sw0", "another-swarm"} {
+		for _, id := range ids {
+			for _, g := range gids {
+				for _, s := range sts {
+					want := sw == "sw0" && (c.NI == 0 || in(id, ids[:c.NI])) && (c.NG == 0 || in(g, gids[:c.NG])) && (c.NS == 0 || in(s, c.Statuses))
+					got := root.evalRow(map[string]string{"swarm": sw, "id": id, "group_id": g, "state_status": s})
+					if got != want {
+						return false, fmt.Sprintf("a plan of swarm %s with id=%s group=%s status=%s: the statement says %v, the query says %v: %s", sw, id[len(id)-2:], g[len(g)-2:], s, want, got, c.Q)
+					}
+				}
+			}
+		}
+	}
+	return true, ""
+}
+
+// evalRow: like eval, over a row given by column name
+func (n *sqlNode) evalRow(row map[string]string) bool {
+	switch n.op {
+	case "and":
+		for _, k := range n.kids {
+			if !k.evalRow(row) {
+				return false
+			}
+		}
+		return true
+	case "or":
+		for _, k := range n.kids {
+			if k.evalRow(row) {
+				return true
+			}
+		}
+		return false
+	}
+	v := row[n.col]
+	for _, x := range n.vals {
+		if x == v {
+			return true
+		}
+	}
+	return false
+}
